@@ -62,31 +62,62 @@ def crashed(res):
     return None
 
 
-def run_all(ctx, flavour, scs, batch, judge):
-    """Run scs in batches of `batch` per process (ctx.pmap); judge(flavour, sc, res, out) is called once per scenario with the result
-    of a run in which the process did not die; when a batch dies its scenarios are re-run one by one to find the culprit."""
-    chunks = [scs[i:i + batch] for i in range(0, len(scs), batch)]
-
-    def one(chunk):
-        res, outs = run_batch(flavour, chunk)
-        if res.timed_out:
-            for _ in chunk:
-                ctx.evaluation()
-                ctx.inconclusive("sync harness watchdog (%s)" % flavour)
-            return
-        if crashed(res) and len(chunk) > 1:
-            for sc in chunk:
-                r1, o1 = run_one(flavour, sc)
-                ctx.evaluation()
-                if r1.timed_out:
-                    ctx.inconclusive("sync harness watchdog (%s)" % flavour)
-                else:
-                    judge(flavour, sc, r1, o1)
-            return
-        for sc, o in zip(chunk, outs):
+def _run_chunk(ctx, flavour, chunk, judge, probes=None):
+    if probes:
+        # Sanitized processes take seconds to start. probes = ([scenarios of the chunk], key): directed witnesses of an open known
+        # finding that kills the process. They are run first, each alone; when one of them reproduces that finding the other
+        # scenarios of the chunk are not run at all (they would die the same way: masked), else the rest runs as one batch.
+        first, hit = probes
+        chunk = [sc for sc in chunk if sc not in first]
+        masked = False
+        for sc in first:
+            r1, o1 = run_one(flavour, sc)
             ctx.evaluation()
-            judge(flavour, sc, res, o)
-    ctx.pmap(one, chunks)
+            if r1.timed_out:
+                ctx.inconclusive("sync harness watchdog (%s)" % flavour)
+            elif judge(flavour, sc, r1, o1) == hit:
+                masked = True
+        if masked:
+            ctx.count("scenarios_not_run_on_%s(masked by the open known crash)" % flavour, len(chunk))
+            return
+    res, outs = run_batch(flavour, chunk)
+    if res.timed_out:
+        for _ in chunk:
+            ctx.evaluation()
+            ctx.inconclusive("sync harness watchdog (%s)" % flavour)
+        return
+    if crashed(res) and len(chunk) > 1:
+        # one process runs the whole chunk: find the culprit(s) by running the scenarios one by one
+        for sc in chunk:
+            r1, o1 = run_one(flavour, sc)
+            ctx.evaluation()
+            if r1.timed_out:
+                ctx.inconclusive("sync harness watchdog (%s)" % flavour)
+            else:
+                judge(flavour, sc, r1, o1)
+        return
+    for sc, o in zip(chunk, outs):
+        ctx.evaluation()
+        judge(flavour, sc, res, o)
+
+
+def run_many(ctx, groups, judge):
+    """groups: [(flavour, scenarios, batch size[, probes])]. The scenarios of a group are run in batches of `batch` per process, all
+    processes of all groups on one thread pool (the slow sanitized ones first); judge(flavour, sc, res, out) is called once per
+    scenario with the result of a run in which the process did not die, or of a run of that scenario alone.
+    probes = ([scenarios of the group, run first and alone], key): see _run_chunk (use it with one batch per group)."""
+    tasks = []
+    for g in groups:
+        flavour, scs, batch = g[:3]
+        probes = g[3] if len(g) > 3 else None
+        for i in range(0, len(scs), batch):
+            tasks.append((flavour, scs[i:i + batch], probes))
+    tasks.sort(key=lambda t: (t[0] == "hooks", -len(t[1])))
+    ctx.pmap(lambda t: _run_chunk(ctx, t[0], t[1], judge, t[2]), tasks)
+
+
+def run_all(ctx, flavour, scs, batch, judge):
+    run_many(ctx, [(flavour, scs, batch)], judge)
 
 
 def _timeout(rng, zero):
@@ -166,10 +197,13 @@ def gen_cv(rng):
     return {"mode": "cv", "ncv": ncv, "scripts": scripts}
 
 
-def gen_bar(rng):
+def gen_bar(rng, kills=False):
+    """kills: some actors also try to kill another one while it is blocked in a barrier wait (X<v>; a no-op when v is not blocked)"""
     na = rng.randint(2, 6)
     nb = rng.choice([1, 1, 2])
     sizes = [rng.choice([1, 2, 2, 3, 3, 4, 5, 6, min(6, na), max(1, na - 1)]) for _ in range(nb)]
+    if kills:
+        sizes = [max(2, x) for x in sizes]
     scripts = []
     for a in range(na):
         ops = []
@@ -181,5 +215,9 @@ def gen_bar(rng):
                 ops.append("S%d" % rng.choice([1, 1, 2, 3]))
             else:
                 ops.append("Y")
+        if kills and rng.random() < 0.6:
+            ops.insert(rng.randrange(1, len(ops) + 1), "X%d" % rng.choice([x for x in range(na) if x != a]))
         scripts.append(ops)
+    if kills and not any(o[0] == "X" for sc in scripts for o in sc):
+        scripts[0].append("X1")
     return {"mode": "bar", "sizes": sizes, "scripts": scripts}
